@@ -34,6 +34,7 @@ import (
 	"net"
 	"net/http"
 	"net/http/httptest"
+	"net/url"
 	"os"
 	"path/filepath"
 	"strconv"
@@ -135,6 +136,14 @@ func (e *c30Env) close() {
 }
 
 func (e *c30Env) dbPath() string { return filepath.Join(e.dir, "db.sqlite") }
+
+// get sends a GET request to the service.
+func (e *c30Env) get(path string) (int, []byte) {
+	req := httptest.NewRequest("GET", path, nil)
+	rec := httptest.NewRecorder()
+	e.svc.ServeHTTP(rec, req)
+	return rec.Code, rec.Body.Bytes()
+}
 
 // post sends a JSON body to the service and returns status and body.
 func (e *c30Env) post(path, body string) (int, []byte) {
@@ -327,6 +336,8 @@ type c30Case struct {
 	Returning bool       // last INSERT carries RETURNING for all columns
 	ExecAssoc bool       // /db/execute answered in associative form
 	Pretty    bool       // ask for pretty-printed answers
+	Strong    bool       // read back with level=strong (through the log)
+	UseGet    bool       // first read-back form is sent as GET ?q=
 	Endpoint  string     // "query" | "request"
 	RowOrder  string     // "ASC" | "DESC"
 }
@@ -355,6 +366,8 @@ func c30GenCase(rt *rapid.T) c30Case {
 	c.Returning = rapid.IntRange(0, 2).Draw(rt, "returning") == 0
 	c.ExecAssoc = rapid.Bool().Draw(rt, "execassoc")
 	c.Pretty = rapid.IntRange(0, 3).Draw(rt, "pretty") == 0
+	c.Strong = rapid.IntRange(0, 3).Draw(rt, "strong") == 0
+	c.UseGet = rapid.IntRange(0, 2).Draw(rt, "useget") == 0
 	return c
 }
 
@@ -446,7 +459,7 @@ func (c c30Case) paramSQL() (string, []string) {
 
 func (c c30Case) render() string {
 	var sb strings.Builder
-	fmt.Fprintf(&sb, "endpoint=%s order=%s execassoc=%v pretty=%v body=%s params=[", c.Endpoint, c.RowOrder, c.ExecAssoc, c.Pretty, c.insertBody())
+	fmt.Fprintf(&sb, "endpoint=%s order=%s execassoc=%v pretty=%v strong=%v get=%v body=%s params=[", c.Endpoint, c.RowOrder, c.ExecAssoc, c.Pretty, c.Strong, c.UseGet, c.insertBody())
 	for i, p := range c.Params {
 		if i > 0 {
 			sb.WriteString(",")
@@ -870,7 +883,7 @@ func c30Check(rt *rapid.T, rec *vstat.Rec, env *c30Env, c c30Case) {
 	if (len(c.ColTypes)+len(c.Rows))%2 == 1 {
 		forms = []c30Form{{true, false}, {false, true}}
 	}
-	for _, form := range forms {
+	for fi, form := range forms {
 		path := "/db/" + c.Endpoint + "?x"
 		if form.assoc {
 			path += "&associative"
@@ -881,7 +894,17 @@ func c30Check(rt *rapid.T, rec *vstat.Rec, env *c30Env, c c30Case) {
 		if c.Pretty {
 			path += "&pretty"
 		}
-		code, body := env.post(path, "["+c30JSONString(q, false)+"]")
+		if c.Strong {
+			path += "&level=strong"
+		}
+		var code int
+		var body []byte
+		if c.UseGet && fi == 0 && c.Endpoint == "query" {
+			rec.Label("get-form")
+			code, body = env.get(path + "&q=" + url.QueryEscape(q))
+		} else {
+			code, body = env.post(path, "["+c30JSONString(q, false)+"]")
+		}
 		fname := fmt.Sprintf("%s assoc=%v blob_array=%v", c.Endpoint, form.assoc, form.arr)
 		if code != http.StatusOK {
 			fail(&c30Failure{"C30/query-error", fmt.Sprintf("%s: HTTP %d %.300s", fname, code, body)})
@@ -939,7 +962,7 @@ func c30Check(rt *rapid.T, rec *vstat.Rec, env *c30Env, c c30Case) {
 
 func TestVerif_C30_HTTP(t *testing.T) {
 	rec := vstat.New(t, "C30", "http",
-		"rapid: tables of 1-4 columns declared untyped/INTEGER/REAL/TEXT/BLOB, 1-3 rows inserted through POST /db/execute with positional or named JSON parameters (int64 incl. extremes and beyond 2^53, floats in g/e/f notation incl. max/denormal, booleans, null, text incl. non-ASCII, control characters, \\u-escaped, numeric- and hex-looking, X'..' hex blob literals, byte arrays incl. empty, ASCII-looking and invalid-UTF-8 blobs); stored table compared with the raw driver's; columns and +column expressions read back through /db/query or /db/request in array/associative x base64/blob_array forms (two complementary forms per case), INSERT ... RETURNING answers of /db/execute, optional pretty printing, and 1-4 query parameters echoed by SELECT ?; one real single-node store + http.Service shared by all cases, table recreated per case; non-trivial = at least two different value kinds stored; distinct by request bodies")
+		"rapid: tables of 1-4 columns declared untyped/INTEGER/REAL/TEXT/BLOB, 1-3 rows inserted through POST /db/execute with positional or named JSON parameters (int64 incl. extremes and beyond 2^53, floats in g/e/f notation incl. max/denormal, booleans, null, text incl. non-ASCII, control characters, \\u-escaped, numeric- and hex-looking, X'..' hex blob literals, byte arrays incl. empty, ASCII-looking and invalid-UTF-8 blobs); stored table compared with the raw driver's; columns and +column expressions read back through /db/query or /db/request in array/associative x base64/blob_array forms (two complementary forms per case), INSERT ... RETURNING answers of /db/execute, optional pretty printing, level=strong and GET ?q= variants, and 1-4 query parameters echoed by SELECT ?; one real single-node store + http.Service shared by all cases, table recreated per case; non-trivial = at least two different value kinds stored; distinct by request bodies")
 	env, err := c30NewEnv()
 	if err != nil {
 		t.Skipf("infrastructure: %v", err)
